@@ -277,8 +277,14 @@ def run_case(case, ctx):
         with ctx.lib("closed-system propagation (no RWA)", mechanism=None):
             H1 = qr.Hamiltonian(data=Hd.copy())
             p = qm.ReducedDensityMatrixPropagator(t, H1)
-            ev = p.propagate(qr.ReducedDensityMatrix(data=rho0.copy()), method=method, Nref=nref)
+            rin_store = rho0.copy()
+            rin = qr.ReducedDensityMatrix(data=rin_store)
+            ev = p.propagate(rin, method=method, Nref=nref)
             d = numpy.array(ev.data)
+            # the caller's density-matrix object used again, and a state whose matrix was handed over as a real (float) array
+            d_again = numpy.array(p.propagate(rin, method=method, Nref=nref).data)
+            rr_ = numpy.real(rho0).astype(float).copy()
+            d_rr = numpy.array(p.propagate(qr.ReducedDensityMatrix(data=rr_.copy()), method=method, Nref=nref).data)
             sp = StateVectorPropagator(t, H1)
             sp.setDtRefinement(nref)
             psi_store = psi0.copy()                     # complex storage handed to the library, kept by the caller
@@ -291,6 +297,12 @@ def run_case(case, ctx):
         L = gksl.hamiltonian_part(Hd)
         bounds, x, M = gksl.taylor_bounds(L, case["dt"] / nref, order, nref, case["Nt"], 1.0)
         det["x"] = x
+        ctx.check("closed==expm", float(numpy.max(numpy.abs(d_again - d))), 0.0, dict(det, what="second propagation of the same ReducedDensityMatrix object"))
+        ctx.check("closed==expm", float(numpy.max(numpy.abs(rin_store - rho0))), 0.0, dict(det, what="the caller's initial density matrix after the propagation"))
+        ref_rr = gksl.propagate_exact(L, rr_.astype(complex), numpy.array(t.data))
+        e_rr = numpy.sqrt(numpy.sum(numpy.abs(d_rr - ref_rr) ** 2, axis=(1, 2)))
+        i = int(numpy.argmax(e_rr / (bounds * 4 + 1e-12)))
+        ctx.check("closed==expm", float(e_rr[i]), float(bounds[i] * 4 + 1e-12), dict(det, index=i, what="initial state stored as a real array"))
         ctx.check("closed:psi-vs-rho", float(numpy.max(numpy.abs(psi_again - psi))), 0.0, dict(det, what="second state-vector propagation of the same StateVector object"))
         ctx.check("closed:psi-vs-rho", float(numpy.max(numpy.abs(psi_store - psi0))), 0.0, dict(det, what="the caller's initial state vector after the propagation"))
         if rho_from_sv is not None:
